@@ -43,7 +43,12 @@ def gen(seed, tier):
             elif what in ("child-zero", "drop"):
                 op["child"] = rng.randrange(12)
             script.append(op)
-    return {"prop": "C15", "seed": seed, "interval": rng.choice([0.5, 1.0, 30.0]), "initial": init, "factory_demands": [rng.choice(alphabet_d) for _ in range(rng.randint(1, 4))], "factory_supply": rng.choice([0.0, 0.0, 1.0]), "demand0": rng.choice([None, None, 0.0, 3.0, 8.0]), "periods": periods, "script": script}
+    bystander = None
+    if rng.random() < 0.25:
+        # a second FactoryPool of the same process, with children of its own that it releases at some
+        # point while somebody else keeps them alive: none of the first pool's business
+        bystander = {"children": [rng.choice([1.0, 2.0, 4.0]) for _ in range(rng.randint(1, 3))], "drop_k": rng.randint(0, max(0, periods - 1)), "to": rng.choice([0.0, 0.0, 1.0])}
+    return {"prop": "C15", "seed": seed, "bystander": bystander, "interval": rng.choice([0.5, 1.0, 30.0]), "initial": init, "factory_demands": [rng.choice(alphabet_d) for _ in range(rng.randint(1, 4))], "factory_supply": rng.choice([0.0, 0.0, 1.0]), "demand0": rng.choice([None, None, 0.0, 3.0, 8.0]), "periods": periods, "script": script}
 
 
 def run(scenario, tape_values):
@@ -117,14 +122,33 @@ def run(scenario, tape_values):
         snaps.append(snap)
         return snap
 
+    by = sc.get("bystander")
+    bkids = []
+    bfp = None
+    if by:
+        for d in by["children"]:
+            bkids.append(RecPool(world, "b%d" % len(bkids), supply=float(d), demand=float(d), utilisation=1.0, allocation=1.0))
+
+        def bfactory():
+            c = RecPool(world, "b%d" % len(bkids), supply=0.0, demand=1.0, utilisation=1.0, allocation=1.0)
+            bkids.append(c)
+            return c
+
+        bfp = FactoryPool(*bkids, factory=bfactory, interval=interval)
+        world.count_fault("second-factory-pool")
+
     async def env(world, nursery):
         snapshot("initial")
+        if bfp is not None:
+            await start_service(world, nursery, "bystander", bfp, "C15/bystander-run-raised/%s")
         await start_service(world, nursery, "service", fp, "C15/run-raised/%s")
         by_k = {}
         for op in script:
             by_k.setdefault(int(op["k"]), []).append(op)
         for k in range(periods):
             ops = by_k.get(k, [])
+            if bfp is not None and k == int(by["drop_k"]):
+                bfp.demand = float(by["to"])
             for j, op in enumerate(ops):
                 await trio.sleep_until(k * interval + interval * (j + 1) / (len(ops) + 2))
                 what = op["what"]
@@ -196,6 +220,9 @@ def run(scenario, tape_values):
         for n in new_calls:
             if n not in a["hatch"] and n not in a["mort"] and kids_alive(n):
                 V("C15/spawned-child-lost", "adjustment %d: the factory made %s but it is neither active nor released" % (k, n))
+        for n in a["children"]:
+            if n not in names:
+                V("C15/foreign-child", "adjustment %d: child %s, reported among the children, was created neither initially nor by this pool's factory" % (k, n))
         tot = sum(a["demand"][n] for n in active)
         released_now = [n for n in b["hatch"] if n not in a["hatch"]]
         shrank = [n for n in released_now if b["demand"].get(n, 0.0) > 0]
